@@ -124,5 +124,11 @@ def do_state_and_calls():
                          'finish_elsewhere': sum(len(re.findall(r'\.finish\(', src)) for f, src in files.items() if f != 'builder.rs'),
                          'from_str_in_parse': len(re.findall(r'\bT::from_str\(', files.get('parse.rs', ''))),
                          'build_calls_in_parse': len(re.findall(r'\.build\(\)', files.get('parse.rs', '')))}
+def do_search_form():
+    # Qualifiers::search: the model scans linearly; BinSearch.v proves std's binary_search_by loop returns the same on every reachable collection
+    q = '\n'.join(l for l in nontest(read('qualifiers.rs')).split('\n') if not l.strip().startswith('//'))
+    m = re.search(r'fn search<K>\(.*?\{\s*(.*?)\s*\}\s*\n', q[q.index('fn search<K>'):], re.S)
+    out['search_form'] = re.sub(r'\s+', ' ', m.group(1)) if m else None
+attempt('search form', do_search_form)
 attempt('state and hook calls', do_state_and_calls)
 print(json.dumps(out, indent=1))
